@@ -62,6 +62,11 @@ def gen(rng, tier):
                     yield {"family": "keepalive_max." + proto, "kind": "keepalive_max", "limit": limit, "proto": proto, "pace": pace,
                            "nreq": limit + 3, "tag": n, "seed": rng.randrange(1 << 30),
                            "app_delay": rng.choice([0, 0, 3])}
+                    if proto == "h2" and pace == "sequential":
+                        # the first application also pushes a resource: whatever the server makes of its own pushes, the client is told when to stop
+                        n += 1
+                        yield {"family": "keepalive_max.h2.with-push", "kind": "keepalive_max", "limit": limit, "proto": "h2", "pace": "sequential",
+                               "nreq": limit + 3, "tag": n, "seed": rng.randrange(1 << 30), "app_delay": 0, "push": True}
                     if proto == "h2" and pace == "burst":
                         n += 1
                         yield {"family": "keepalive_max.h2.blocked-flush", "kind": "keepalive_max", "limit": limit, "proto": "h2", "pace": "blocked-flush",
@@ -208,6 +213,8 @@ def run_one(case, tally):
             tags = [case["tag"] * 100 + i for i in range(nreq)]
             for tg in tags:
                 by_tag[str(tg)] = _tag_app(tg, delay=case["app_delay"], extra=[tuple(case["app_header"])] if case.get("app_header") else ())
+            if case.get("push"):
+                by_tag[str(tags[0])] = [["recv_until_end"], ["try_send", {"type": "http.response.push", "path": "/pushed", "headers": []}]] + by_tag[str(tags[0])][1:]
             if case["proto"] == "h1":
                 reqs = [b"GET /t%d HTTP/1.1\r\nHost: h\r\n\r\n" % tg for tg in tags]
                 client = [["feed", b"".join(reqs)]] if case["pace"] == "burst" else [["feed", r] for r in reqs]
@@ -260,7 +267,8 @@ def run_one(case, tally):
                 tally.inconclusive["harness-or-crash"] += 1
                 continue
             tally.clause("keepalive-max")
-            started = len(ob.instances())
+            # (requests of the client's: an application the server starts for its own push is not one of them)
+            started = sum(1 for e in ob.app_events(kind="start") if e[4]["scope"].get("path") != "/pushed")
             allowed = lim if case["proto"] == "h1" else lim + 1  # "one more on HTTP/2" (also when the connection was upgraded from h2c)
             if started > allowed:
                 findings.append({"clause": "keepalive-max", "sig": "C18.keepalive-max/exceeded/%s" % case["proto"], "backend": be,
